@@ -37,7 +37,7 @@ logging.disable(logging.CRITICAL)
 
 THEOREM_FILE = "Properties/C12.v"
 COQCHK = ["Properties.C12"]
-COQ_NEEDS = ["HashDiff.HashDiffShow"]
+COQ_NEEDS = ["HashDiff.HashDiffShow", "HashDiff.HashDiffYShow"]
 RULE = ("one case = one pair (t1, t2) under one option set F and one value of report_repetition (DeepHash gets ignore_repetition = not "
         "report_repetition); both engines are run on it; families alt / near / rand / fixed (module docstring); option sets: every "
         "non-empty subset of the four modelled options, and for the direct oracle also each unmodelled shared option alone and paired "
@@ -80,7 +80,13 @@ class E3(_enum.Enum):       # a third one: same values under other names
     S = "x"
 
 
-ENUMS = (E, E2, E3)
+class E4(_enum.Enum):       # a member whose value is None, next to members sharing values with the other classes
+    N = None
+    M = "x"
+    O = 1
+
+
+ENUMS = (E, E2, E3, E4)
 Enum = _enum.Enum
 
 # --------------------------------------------------------------------------
@@ -193,13 +199,13 @@ def lit(v):
         return "set([" + ", ".join(lit(x) for x in v) + "])"
     if isinstance(v, Decimal):
         return "Decimal(%r)" % str(v)
-    if isinstance(v, (E2, E3)):
+    if isinstance(v, (E2, E3, E4)):
         return "%s.%s" % (type(v).__name__, v.name)
     return C11.lit(v)
 
 
 def _unlit_env():
-    env = {"__builtins__": {"set": set, "frozenset": frozenset, "float": float}, "E": E, "E2": E2, "E3": E3, "dt": C11._dt, "Decimal": Decimal,
+    env = {"__builtins__": {"set": set, "frozenset": frozenset, "float": float}, "E": E, "E2": E2, "E3": E3, "E4": E4, "dt": C11._dt, "Decimal": Decimal,
            "True": True, "False": False, "None": None,
            # the vocabulary of c11.lit, a module that is extended independently of this one
            "tm": datetime.time, "td": lambda us: datetime.timedelta(microseconds=us), "date": datetime.date,
@@ -301,6 +307,46 @@ def typed_repr(v):
     return lit(v) if not isinstance(v, (set, frozenset)) else "S" + repr(sorted(map(lit, v)))
 
 
+def reshare(t1, t2, mode):
+    """Rebuild object sharing from the unfolded trees: structurally equal containers (same literal) become ONE object -
+    mode 1 inside each value, mode 2 also across the two values (the `level.t1 is level.t2` shortcut).  Deterministic,
+    so a case is replayable from its literals and its mode; the models are fed the unfolded trees."""
+    if not mode:
+        return t1, t2
+
+    def intern(v, tbl):
+        if isinstance(v, list):
+            w = [intern(x, tbl) for x in v]
+        elif isinstance(v, tuple):
+            w = tuple(intern(x, tbl) for x in v)
+        elif isinstance(v, dict):
+            w = {k: intern(x, tbl) for k, x in v.items()}
+        elif isinstance(v, (set, frozenset)):
+            w = v
+        else:
+            return v
+        return tbl.setdefault((type(w).__name__, typed_repr(w)), w)
+    tbl = {}
+    a = intern(t1, tbl)
+    b = intern(t2, tbl if mode == 2 else {})
+    return a, b
+
+
+def n_shared(v):
+    """number of container objects occurring at 2+ positions of v"""
+    seen, twice = {}, set()
+
+    def walk(x):
+        if isinstance(x, (list, tuple, dict, set, frozenset)):
+            if id(x) in seen and not (isinstance(x, tuple) and not x):
+                twice.add(id(x))
+            seen[id(x)] = x
+            for y in (x.values() if isinstance(x, dict) else x):
+                walk(y)
+    walk(v)
+    return len(twice)
+
+
 def hashables_acting(v, acc, hashed, keys_by_eq):
     """the hashable sub-objects on which ==-aliasing ACTS in the unchanged code: everything below a list /
     tuple / set (hashed through the shared memo table), and dict keys of directly compared dicts when
@@ -355,7 +401,7 @@ def harmful_alias(t1, t2, kw, acting=False):
 
 def hash_verdict(a, b, kw, rep):
     from deepdiff import DeepHash
-    x, y = copy.deepcopy(a), copy.deepcopy(b)
+    x, y = copy.deepcopy((a, b))       # one copy of the pair: sharing inside and across the values survives
     try:
         return DeepHash(x, ignore_repetition=not rep, **kw)[x] == DeepHash(y, ignore_repetition=not rep, **kw)[y]
     except Exception as e:  # noqa
@@ -365,7 +411,7 @@ def hash_verdict(a, b, kw, rep):
 def diff_verdict(a, b, kw, rep, record=False, **knobs):
     """'empty' | 'nonempty' | 'EXC:<class>' (+ the recorded pairings when asked)"""
     from deepdiff import DeepDiff
-    x, y = copy.deepcopy(a), copy.deepcopy(b)
+    x, y = copy.deepcopy((a, b))
     if not record:
         try:
             r = DeepDiff(x, y, ignore_order=True, report_repetition=rep, **kw, **knobs)
@@ -399,6 +445,7 @@ def agree(he, dv):
 
 def holds(t1, t2, sp, rep):
     kw = kwargs_of(sp)
+    t1, t2 = reshare(t1, t2, sp.get("share", 0))
     a = agree(hash_verdict(t1, t2, kw, rep), diff_verdict(t1, t2, kw, rep, **sp.get("knobs", {}))[0])
     return a is not False
 
@@ -409,7 +456,8 @@ def holds(t1, t2, sp, rep):
 # --------------------------------------------------------------------------
 
 def _inputs(case):
-    return unlit(case["t1"]), unlit(case["t2"]), case["spec"], case["rep"]
+    t1, t2 = reshare(unlit(case["t1"]), unlit(case["t2"]), case["spec"].get("share", 0))
+    return t1, t2, case["spec"], case["rep"]
 
 
 def both(f):
@@ -588,6 +636,14 @@ def _is_dt(a):
     return isinstance(a, (datetime.datetime, datetime.time))
 
 
+def _is_date_or_td(a):
+    return isinstance(a, datetime.timedelta) or (isinstance(a, datetime.date) and not isinstance(a, datetime.datetime))
+
+
+def _is_dtlike(a):
+    return isinstance(a, (datetime.datetime, datetime.date, datetime.time, datetime.timedelta))
+
+
 def dt_in_iterable(v, inside=False):
     """a datetime / time that DeepDiff compares through item hashes (list / tuple item, set member)"""
     if isinstance(v, (list, tuple, set, frozenset)):
@@ -624,6 +680,23 @@ def enum_type_clash(t1, t2):
     if isinstance(t1, (list, tuple)) and type(t1) is type(t2):
         return any(enum_type_clash(x, y) for x in t1 for y in t2)
     return False
+
+
+def same_class_pairs(t1, t2, kw):
+    """Enum classes with two DIFFERENT members, one in t1 and one in t2, that DeepHash identifies under the options"""
+    from deepdiff import DeepHash
+    m1 = [a for a in atoms_of(t1) + keys_of(t1) if isinstance(a, Enum)]
+    m2 = [a for a in atoms_of(t2) + keys_of(t2) if isinstance(a, Enum)]
+    out = set()
+    for a in m1:
+        for b in m2:
+            if type(a) is type(b) and a is not b and type(a) not in out:
+                try:
+                    if DeepHash(a, **kw)[a] == DeepHash(b, **kw)[b]:
+                        out.add(type(a))
+                except Exception:  # noqa
+                    pass
+    return out
 
 
 def unwrap_enum(a):
@@ -679,10 +752,16 @@ FEATURES = [
     ("C12-enum-dict-keys",
      lambda t1, t2, sp, c: sp["enum"] and any(isinstance(k, Enum) for k in all_keys2(t1, t2)),
      both_keys(lambda k: isinstance(k, Enum), lambda k: "enum<%s.%s>" % (type(k).__name__, k.name))),
+    ("C12-enum-none-value",
+     lambda t1, t2, sp, c: sp["enum"] and any(isinstance(a, Enum) and a.value is None for a in all_atoms2(t1, t2)),
+     both(lambda a: None if (isinstance(a, Enum) and a.value is None) else a)),
+    ("C12-enum-same-class-members",
+     lambda t1, t2, sp, c: sp["enum"] and bool(same_class_pairs(t1, t2, kwargs_of(sp))),
+     lambda t1, t2, sp: (lambda cls: (vmap(t1, lambda a: a.value if type(a) in cls else a), vmap(t2, lambda a: a.value if type(a) in cls else a), sp))(
+         same_class_pairs(t1, t2, kwargs_of(sp)))),
     ("C12-enum-unwrap-skips-type-check",
-     # the missing type check only ever makes the diff engine MORE lenient (or makes it raise): equal hashes with a
-     # non-empty diff are never this finding
-     lambda t1, t2, sp, c: sp["enum"] and enum_type_clash(t1, t2) and not (c.get("hash_eq") is True and c.get("diff") == "nonempty"),
+     # (the missing type check only ever makes the diff engine MORE lenient or makes it raise: see PREDICTS)
+     lambda t1, t2, sp, c: sp["enum"] and enum_type_clash(t1, t2),
      both(unwrap_enum)),
     ("C12-enum-distance-TypeError",
      lambda t1, t2, sp, c: sp["enum"] and any(isinstance(a, Enum) for a in all_atoms2(t1, t2)),
@@ -690,6 +769,15 @@ FEATURES = [
     ("C12-number-vs-datetime-TypeError",
      lambda t1, t2, sp, c: sp["numty"] and any(isinstance(a, (datetime.datetime, datetime.date, datetime.time)) for a in all_atoms2(t1, t2)),
      both(lambda a: "dt<%s>" % a.isoformat() if isinstance(a, (datetime.datetime, datetime.date, datetime.time)) else a)),
+    ("C12-timedelta-hash-TypeError",
+     lambda t1, t2, sp, c: (sp["sig"] is not None or sp["numty"]) and any(isinstance(a, datetime.timedelta) for a in all_atoms2(t1, t2) + all_keys2(t1, t2)),
+     both(lambda a: "td<%r>" % a.total_seconds() if isinstance(a, datetime.timedelta) else a)),
+    ("C12-truncate-date-timedelta-raises",
+     lambda t1, t2, sp, c: bool(sp["trunc"]) and any(_is_date_or_td(a) for a in all_atoms2(t1, t2)),
+     both(lambda a: "dtd<%s>" % a if _is_date_or_td(a) else a)),
+    ("C12-date-key-cleaning-TypeError",
+     lambda t1, t2, sp, c: cleaning(sp) and (sp["sig"] is not None or sp["numty"]) and any(_is_dtlike(k) for k in all_keys2(t1, t2)),
+     both_keys(lambda k: _is_dtlike(k), lambda k: "dtk<%s %s>" % (type(k).__name__, k))),
     ("C12-decimal-exponent",
      lambda t1, t2, sp, c: any(isinstance(a, Decimal) for a in all_atoms2(t1, t2)),
      both(_dec_norm)),
@@ -701,6 +789,55 @@ FEATURES = [
      both(dealias)),
 ]
 
+def pattern(case):
+    """the failing clause of a case: (hash verdict, diff verdict)"""
+    he, dv = case.get("hash_eq"), str(case.get("diff"))
+    return ("T" if he is True else "F" if he is False else "X"), dv
+
+
+# the failing clause each finding PREDICTS (its mechanism, see known_findings.d/C12.json): a failing case whose clause
+# none of the removed features predicts is not explained by known findings, whatever the counterfactual says
+LENIENT = {("F", "empty")}          # the diff engine misses a difference DeepHash sees
+STRICT = {("T", "nonempty")}        # the diff engine reports a difference between values DeepHash identifies
+PREDICTS = {
+    "C12-K9-bool-number": LENIENT,
+    "C12-K1-tag-collision": STRICT,
+    "C12-negative-zero": LENIENT,
+    "C12-sigdigits-dict-keys": STRICT,
+    "C12-bytes-key-case": STRICT,
+    "C12-clean-key-collision": LENIENT | STRICT,      # which entry is dropped depends on insertion order
+    "C12-set-member-collision": LENIENT,
+    "C12-nonascii-bytes": STRICT,
+    "C12-undecodable-bytes": lambda h, d, x: h == "X",
+    # item hashes are not truncated: items equal up to truncation are reported; with report_repetition DUPLICATES that only
+    # truncation merges are counted by DeepHash and not by the diff engine
+    "C12-truncate-not-forwarded": lambda h, d, x: (h, d) == ("T", "nonempty") or ((h, d) == ("F", "empty") and bool(x["rep"])),
+    "C12-datetime-dict-keys": STRICT,
+    "C12-enum-dict-keys": STRICT,
+    "C12-enum-none-value": STRICT,
+    "C12-enum-same-class-members": STRICT,
+    # the missing type check makes the diff engine more lenient, or makes the comparer of t1's type raise
+    "C12-enum-unwrap-skips-type-check": lambda h, d, x: (h, d) == ("F", "empty") or d in ("EXC:AttributeError", "EXC:TypeError"),
+    "C12-enum-distance-TypeError": lambda h, d, x: d == "EXC:TypeError",
+    "C12-number-vs-datetime-TypeError": lambda h, d, x: d == "EXC:TypeError",
+    "C12-timedelta-hash-TypeError": lambda h, d, x: h == "X",
+    "C12-truncate-date-timedelta-raises": lambda h, d, x: d in ("EXC:TypeError", "EXC:AttributeError"),
+    "C12-date-key-cleaning-TypeError": lambda h, d, x: d == "EXC:TypeError",
+    "C12-decimal-exponent": LENIENT,
+    # the diff engine's shared table hides a difference (lenient); the hash engine's own table can also make the
+    # hashes of two different values EQUAL, but only through an alias inside ONE of the two values
+    "C12-K2-memo-alias": lambda h, d, x: (h, d) == ("F", "empty") or (
+        (h, d) == ("T", "nonempty") and (harmful_alias(x["t1"], None, kwargs_of(x["sp"])) or harmful_alias(x["t2"], None, kwargs_of(x["sp"])))),
+}
+
+
+def predicts(key, pat, x):
+    p = PREDICTS.get(key)
+    if p is None:
+        return True
+    return p(pat[0], pat[1], x) if callable(p) else pat in p
+
+
 _ATTR = {}
 
 
@@ -709,7 +846,7 @@ def attribution(case):
     fixed order above) whose removal from the input makes the two engines
     agree; counterfactual: nothing else about the input changes.  Returns the
     keys, or () when the failure is not explained by known findings."""
-    ck = (case.get("t1"), case.get("t2"), repr(sorted(case.get("spec", {}).items(), key=repr)), case.get("rep"), case.get("diff"))
+    ck = (case.get("t1"), case.get("t2"), repr(sorted(case.get("spec", {}).items(), key=repr)), case.get("rep"), case.get("hash_eq"), case.get("diff"))
     if ck in _ATTR:
         return _ATTR[ck]
     import itertools
@@ -732,14 +869,20 @@ def attribution(case):
                 try:
                     ok = True
                     for k_, tr in sub:
-                        if k_ in dynamic and diff_verdict(a, b, kwargs_of(s), rep, **s.get("knobs", {}))[0] != dynamic[k_]:
+                        if k_ in dynamic and diff_verdict(*reshare(a, b, s.get("share", 0)), kwargs_of(s), rep, **s.get("knobs", {}))[0] != dynamic[k_]:
                             ok = False
                             break
                         a, b, s = tr(a, b, s)
                     if ok and holds(a, b, s, rep):
-                        # credit the first feature in the fixed order
+                        # credit the first feature (in the fixed order) that predicts the observed failing clause
                         keys = [k for k, _t in sub]
-                        out = tuple(k for k, _p, _t in FEATURES if k in keys)
+                        pat = pattern(case)
+                        pr = {k: predicts(k, pat, dict(t1=t1, t2=t2, sp=sp, rep=rep)) for k in keys}
+                        out = tuple(k for k, _p, _t in FEATURES if k in keys and pr[k]) + \
+                            tuple(k for k, _p, _t in FEATURES if k in keys and not pr[k])
+                        if not pr[out[0]]:
+                            out = ()
+                            continue
                         break
                 except Exception:  # noqa
                     continue
@@ -819,6 +962,8 @@ def edit_once(rng, v):
 def to_enum(rng, classes, p, keys_too):
     """an atom map sending a plain value to a member (of one of the classes) with that value"""
     def fa(a):
+        if a is None and E4 in classes and rng.random() < p:
+            return E4.N
         if isinstance(a, (bool, bytes)) or a is None or isinstance(a, Enum) or rng.random() >= p:
             return a
         cands = [m for cl in classes for m in cl if type(m.value) is type(a) and m.value == a]
@@ -854,7 +999,8 @@ def gen_enum_cross(rng, sp):
     keys_too = rng.random() < 0.25
     try:
         fa1, fk1 = to_enum(rng, [E], 0.7, keys_too)
-        fa2, fk2 = to_enum(rng, [E2, E3], 0.7, keys_too)
+        # mostly other classes; in a quarter of the cases the SAME class (members of one class are never unwrapped by _diff)
+        fa2, fk2 = to_enum(rng, [E] if rng.random() < 0.25 else [E2, E3, E4], 0.7, keys_too)
         t1, t2 = vmap(v, fa1, fk1), vmap(w, fa2, fk2)
     except Exception:  # noqa (a substitution that merges keys / set members)
         t1, t2 = v, w
@@ -1072,6 +1218,12 @@ FIXED = [
     ({1: "x"}, {1.0: "x"}, _s(case=True)), ({1: "x"}, {1.0: "x"}, _s(sig=2)), ({1: "x"}, {1.0: "x"}, _s(case=True, sig=2, numty=True)),
     ([[1, 2, 3], [1.0, 2.0, 3.0]], [[1, 2, 3]], _s(numty=True)), ([{"a": [1, 2]}, {"A": [2.0, 1.0]}], [{"a": [1, 2]}], _s(numty=True, case=True)),
     ({"__a": 1, "b": 2}, {"__a": 2, "b": 2}, _s()), ({"__A": 1, "b": 2}, {"__a": 2, "B": 2}, _s(case=True)),
+    # the exact K9 guard: a bool facing a number the diff engine does NOT find equal is inside the theorem (both engines: different);
+    # number first goes through the number_to_string texts, bool first through != (0.5 / False at 0 digits: only in that order equal)
+    (True, 2, _s(numty=True)), (2, True, _s(numty=True)), ([True, 5], [5, 2], _s(numty=True)), ({"k": False}, {"k": 1.5}, _s(numty=True)),
+    (0.5, False, _s(numty=True, sig=0)), (False, 0.5, _s(numty=True, sig=0)), (1.5, True, _s(numty=True, sig=0)), (True, 1.5, _s(numty=True, sig=0)),
+    (-0.5, False, _s(numty=True, sig=0)), ({"k": 0.5}, {"k": False}, _s(numty=True, sig=0)), ([True, 1], [1, True], _s(numty=True)),
+    ({"a": [True, 2]}, {"a": [2, True]}, _s(numty=True, case=True)), ([0.5, 3], [3, False], _s(numty=True, sig=0)),
 ]
 
 FIXED_RICH = [
@@ -1114,7 +1266,245 @@ FIXED_RICH = [
     ({"k": E.D}, {"k": b"x"}, _s(enum=True, strty=True, case=True)), (b"X", E3.S, _s(enum=True, strty=True, case=True)),
     ({"k": E.A}, {"k": 2.0}, _s(enum=True, numty=True)), ({"k": E.B}, {"k": b"y"}, _s(enum=True, strty=True)),
     ({"k": E.A}, {"k": 1.0}, _s(enum=True)), ({"k": E.A}, {"k": 1.0}, _s(numty=True)), ({"k": E.B}, {"k": b"x"}, _s(enum=True)),
+    # two different members of the SAME class: compared by _diff_enum (names), hashed by value
+    (E.B, E.D, _s(enum=True, case=True)), ({"k": E.B}, {"k": E.D}, _s(enum=True, case=True)), ([E.B, 1], [1, E.D], _s(enum=True, case=True)),
+    (E.B, E.D, _s(enum=True)), (E.B, E.D, _s(case=True)), (E2.A, E2.Z, _s(enum=True)), ({"k": E2.C}, {"k": E2.Z}, _s(enum=True, sig=0, numty=True)),
+    ({"k": E.B}, {"k": E.B}, _s(enum=True, case=True)), (E2.C, E2.Z, _s(enum=True, sig=0)),
+    # a member whose value is None facing None / another None-valued member
+    (E4.N, None, _s(enum=True)), ({"k": E4.N}, {"k": None}, _s(enum=True)), ({"k": None}, {"k": E4.N}, _s(enum=True, case=True)), ([E4.N, 1], [1, None], _s(enum=True)),
+    ({"k": E4.N}, {"k": E4.N}, _s(enum=True)), (E4.N, None, _s()), ({"k": E4.N}, {"k": "x"}, _s(enum=True)), ({"k": E4.M}, {"k": E.B}, _s(enum=True)),
 ]
+
+
+def with_sharing(rng, t1, t2, sp, p=0.13):
+    """in a fixed fraction of the cases ONE container of t1 (or t2) is put at a second position of the same value
+    (values.share) and the case is run with the sharing rebuilt (reshare); the literals stay the unfolded trees"""
+    if rng.random() >= p:
+        return t1, t2, sp
+    try:
+        if rng.random() < 0.5:
+            w, did = V.share(rng, t1)
+            if did:
+                t1 = w
+        else:
+            w, did = V.share(rng, t2)
+            if did:
+                t2 = w
+    except Exception:  # noqa
+        did = False
+    mode = rng.choice([1, 1, 2])
+    a, b = reshare(t1, t2, mode)
+    if not did and not (n_shared(a) or n_shared(b) or mode == 2):
+        return t1, t2, sp
+    return t1, t2, dict(sp, share=mode)
+
+
+# --------------------------------------------------------------------------
+# the model over the extended universe (HashDiffYModel.v): list-free values, ALL shared options
+# --------------------------------------------------------------------------
+YHEADER = ("From DD Require Import Base.PyStr Options.OptModel Options.OptDtModel Options.YValue Options.YModel "
+           "HashDiff.HashDiffYModel HashDiff.HashDiffYShow.\nLocal Open Scope Z_scope.")
+
+
+def y_atom_to_coq(a):
+    if isinstance(a, Enum):
+        return "(AEnum %s %s %d%%nat %s)" % (core.coq_pystr(type(a).__name__), core.coq_pystr(a.name), list(type(a)).index(a),
+                                             C11.x_evalue_to_coq(a.value))
+    return C11.x_atom_to_coq(a)
+
+
+def y_to_coq(v):
+    if isinstance(v, list):
+        return "(VList [%s])" % "; ".join(y_to_coq(x) for x in v)
+    if isinstance(v, tuple):
+        return "(VTuple [%s])" % "; ".join(y_to_coq(x) for x in v)
+    if isinstance(v, dict):
+        return "(VDict [%s])" % "; ".join("(%s, %s)" % (y_atom_to_coq(k), y_to_coq(x)) for k, x in v.items())
+    if isinstance(v, frozenset):
+        return "(VFrozen [%s])" % "; ".join(y_atom_to_coq(x) for x in v)
+    if isinstance(v, set):
+        return "(VSet [%s])" % "; ".join(y_atom_to_coq(x) for x in v)
+    return "(VAtom %s)" % y_atom_to_coq(v)
+
+
+def y_opts(sp):
+    return C11.xcoq_opts(dict(c11_spec(sp), note=bool(sp["note"])))
+
+
+def y_ok_atom(a):
+    if isinstance(a, float) and a != a:
+        return False                                    # nan objects: ignore_nan_inequality is not a shared option
+    if isinstance(a, (str, bytes)) and tag_like(a):
+        return False                                    # K1 lives in the base universe (the leaf texts here are stand-ins across kinds)
+    if isinstance(a, bytes):
+        return all(ch < 128 for ch in a)
+    if isinstance(a, Enum):
+        v = a.value
+        return C11.x_ok_evalue(v) and not (isinstance(v, (str, bytes)) and (tag_like(v) or not (v.isascii() if isinstance(v, str) else all(ch < 128 for ch in v))))
+    if np_generic(a):
+        return False
+    return C11.x_ok_atom(a)
+
+
+def np_generic(a):
+    np = getattr(C11, "np", None)
+    return np is not None and isinstance(a, np.generic)
+
+
+def in_yuniverse(v, lists_ok=False):
+    if isinstance(v, (list, tuple)):
+        return lists_ok and type(v) in (list, tuple) and all(in_yuniverse(x, lists_ok) for x in v)
+    if isinstance(v, dict):
+        return type(v) is dict and all(y_ok_atom(k) and in_yuniverse(x, lists_ok) for k, x in v.items())
+    if isinstance(v, (set, frozenset)):
+        return all(y_ok_atom(x) for x in v)
+    return y_ok_atom(v)
+
+
+def enum_meets_container(t1, t2):
+    """a str / bytes valued member facing a container (the code iterates the characters: outside the Y model)"""
+    c1, c2 = isinstance(t1, (dict, set, frozenset, list, tuple)), isinstance(t2, (dict, set, frozenset, list, tuple))
+    if c1 != c2:
+        m = t2 if c1 else t1
+        return isinstance(m, Enum)
+    if isinstance(t1, dict) and isinstance(t2, dict):
+        return any(enum_meets_container(x, y) for x in t1.values() for y in t2.values())
+    return False
+
+
+_D = datetime.datetime
+Y_ATOMS = [None, True, False, 0, 1, 2, -1, 7, 10, 0.5, 1.5, 2.5, 2.675, 0.1, 0.3, 1.0, 2.0, 1000.0, 1001.4, 1e-3,
+           "a", "A", "ab", "Ab", "x", "X", "", "k1", b"a", b"A", b"ab", b"x",
+           Decimal("1"), Decimal("1.0"), Decimal("1.00"), Decimal("2.5"), Decimal("2.50"), Decimal("1.001"), Decimal("1.002"), Decimal("1E+1"),
+           datetime.date(2024, 1, 1), datetime.date(2024, 1, 2), datetime.time(10, 20, 30), datetime.time(10, 20, 31), datetime.time(10, 21, 0, 500000),
+           datetime.timedelta(seconds=5), datetime.timedelta(days=1, microseconds=7)]
+
+
+def y_dt(rng):
+    base = rng.choice([(2024, 1, 1, 22, 40, 30, 0), (2024, 1, 1, 22, 40, 30, 5), (2024, 1, 1, 22, 40, 31, 0), (2024, 1, 1, 22, 59, 59, 999999),
+                       (2024, 1, 1, 23, 0, 0, 0), (2024, 6, 30, 23, 59, 59, 999999), (2024, 7, 1, 0, 0, 0, 0), (2024, 1, 2, 0, 40, 30, 0)])
+    return C11._dt(*base, rng.choice([None, None, 0, 0, 120, -300, 330, 345]))
+
+
+def y_atom(rng, sp):
+    r = rng.random()
+    if r < 0.22 or (r < 0.45 and (sp["trunc"] or sp["tz"] is not None)):
+        return y_dt(rng)
+    if r < 0.40 or (r < 0.6 and sp["enum"]):
+        return rng.choice([m for cl in all_enum_classes() for m in cl])
+    return rng.choice(Y_ATOMS)
+
+
+def y_key(rng, sp):
+    for _ in range(20):
+        k = y_atom(rng, sp) if rng.random() < 0.5 else rng.choice(["a", "A", "b", "k", "K", "ab", 1, 2, 1.5, b"a", "__p"])
+        if k is not None or rng.random() < 0.3:
+            return k
+    return "k"
+
+
+def y_value(rng, sp, depth):
+    r = rng.random()
+    if depth <= 0 or r < 0.3:
+        return y_atom(rng, sp)
+    if r < 0.8:
+        out = {}
+        for _ in range(rng.randint(0, 3)):
+            k = y_key(rng, sp)
+            try:
+                if not any(k == q for q in out):
+                    out[k] = y_value(rng, sp, depth - 1)
+            except TypeError:
+                pass
+        return out
+    items = []
+    for _ in range(rng.randint(0, 3)):
+        a = y_atom(rng, sp)
+        if not any(a == q for q in items):
+            items.append(a)
+    return set(items) if r < 0.92 else frozenset(items)
+
+
+def gen_y_pair(rng, sp):
+    """list-free pair: t2 = t1 altered only in the aspects the option set ignores (c11's generated normaliser, which knows
+    truncation, zones, Enum members, Decimal exponents, numeric / text types, case), dicts re-ordered, sometimes one genuine edit"""
+    t1 = y_value(rng, sp, rng.choice([0, 1, 1, 2, 2, 3]))
+    r = rng.random()
+    if r < 0.65:
+        try:
+            t2 = C11.normalise(rng, t1, dict(c11_spec(sp), note=bool(sp["note"])), rich=True, p=0.6, log=[])
+        except Exception:  # noqa
+            t2 = copy.deepcopy(t1)
+    elif r < 0.85:
+        t2 = copy.deepcopy(t1)
+    else:
+        t2 = y_value(rng, sp, rng.choice([0, 1, 2]))
+    if rng.random() < 0.5:
+        t2 = C05.rebuild(t2, rng)
+    if rng.random() < 0.3:
+        t2, _k = edit_once(rng, t2)
+    if rng.random() < 0.5:
+        t1, t2 = t2, t1
+    return t1, t2
+
+
+def y_listfree(v):
+    if isinstance(v, (list, tuple)):
+        return False
+    if isinstance(v, dict):
+        return all(y_listfree(x) for x in v.values())
+    return True
+
+
+def y_specs(rng):
+    out = modelled_specs(rng) + unmodelled_specs(rng) + unmodelled_specs(rng)
+    out += [mk(enum=True, case=True), mk(enum=True, numty=True), mk(enum=True, strty=True), mk(enum=True, sig=0), mk(enum=True, trunc="hour"),
+            mk(trunc="hour", tz=330), mk(trunc="day", tz=-300, enum=True), mk(trunc="minute", numty=True), mk(sig=2, note=True, numty=True),
+            mk(enum=True, case=True, strty=True, numty=True, sig=1, trunc="minute", tz=120)]
+    return out
+
+
+def _ytask(args):
+    t1l, t2l, sp, rep = args
+    t1, t2 = unlit(t1l), unlit(t2l)
+    kw = kwargs_of(sp)
+    he = hash_verdict(t1, t2, kw, rep)
+    dv, _ = diff_verdict(t1, t2, kw, rep)
+    return t1l, t2l, sp, rep, he, dv, harmful_alias(t1, t2, kw)
+
+
+def y_stream(ctx, pool, pairs, label="ymodel"):
+    """both real engines against HashDiffYShow.run_c12y on list-free pairs of the extended universe; the direct oracle runs too"""
+    args = [(lit(t1), lit(t2), sp, rep) for _f, t1, t2, sp, rep in pairs]
+    res = pool.map(_ytask, args, chunksize=8)
+    cases, hyp = [], []
+    for (fam, a, b, _sp, _r), (t1l, t2l, sp, rep, he, dv, alias) in zip(pairs, res):
+        nm = name_of(sp)
+        ok = agree(he, dv)
+        case = {"t1": t1l, "t2": t2l, "spec": sp, "options": nm, "rep": rep, "hash_eq": he, "diff": dv, "family": fam}
+        ctx.seen((t1l, t2l, nm, rep, "y"), nontrivial=(t1l != t2l))
+        ctx.count("%s:family:%s" % (label, fam))
+        ctx.count("%s:options:%s" % (label, nm))
+        ctx.count("%s:verdicts:hash_%s/diff_%s" % (label, {True: "eq", False: "ne"}.get(he, "exc"), dv.replace("EXC:", "exc_")))
+        if ok is None:
+            ctx.count("%s:both_engines_raise" % label)
+        elif ok is False:
+            r = ctx.fail(case, describe(he, dv) + " [options: %s, report_repetition=%s]" % (nm, rep))
+            ctx.count("%s:oracle_fail_%s" % (label, r))
+            att = attribution(case)
+            ctx.count("attributed:%s:hash_%s/diff_%s" % (att[0] if (att and r == "known") else r, pattern(case)[0], pattern(case)[1]))
+        if alias:
+            ctx.count("%s:outside(memo alias)" % label)
+            continue
+        if dv.startswith("EXC:") and dv not in ("EXC:TypeError", "EXC:ValueError", "EXC:AttributeError"):
+            ctx.count("%s:outside(exception %s)" % (label, dv[4:]))
+            continue
+        F = y_opts(sp)
+        expr = "run_c12y %s %s %s %s %s" % (CFG, F, core.coq_bool(rep), y_to_coq(a), y_to_coq(b))
+        cases.append((expr, [he if isinstance(he, bool) else "raised", dv], case))
+        hyp.append(("c12y_hyps %s %s %s %s %s" % (CFG, F, core.coq_bool(rep), y_to_coq(a), y_to_coq(b)), case, ok))
+    ctx.coq_cases("c12y_pairs", YHEADER, cases, shard=150, label="both_engines_on_listfree_pairs_extended_universe_all_options")
+    return hyp
 
 
 # --------------------------------------------------------------------------
@@ -1123,7 +1513,7 @@ FIXED_RICH = [
 
 def _task(args):
     t1l, t2l, sp, rep, want_model = args
-    t1, t2 = unlit(t1l), unlit(t2l)
+    t1, t2 = reshare(unlit(t1l), unlit(t2l), sp.get("share", 0))
     kw = kwargs_of(sp)
     he = hash_verdict(t1, t2, kw, rep)
     in_model = False
@@ -1138,7 +1528,7 @@ def _task(args):
             tbl, ok, _h = rec
             pairing = (sum(len(ji) for _p, ji, _x, _y in tbl), ok)
             cfg = CFG0 if knobs.get("threshold_to_diff_deeper") == 0 else CFG
-            gexpr = "g2 %s %s %s %s %s" % (cfg, coq_opts(sp), core.coq_bool(rep), V.to_coq(t1), V.to_coq(t2))
+            gexpr = "gparts %s %s %s %s %s" % (cfg, coq_opts(sp), core.coq_bool(rep), V.to_coq(t1), V.to_coq(t2))
             expr = "run_c12 %s %s %s %s %s %s" % (cfg, coq_opts(sp), core.coq_bool(rep), C05.coq_pairs_table(tbl), V.to_coq(t1), V.to_coq(t2))
     else:
         dv, _ = diff_verdict(t1, t2, kw, rep, **sp.get("knobs", {}))
@@ -1163,7 +1553,9 @@ def evaluate(ctx, pool, jobs, label):
         case = {"t1": t1l, "t2": t2l, "spec": sp, "options": nm, "rep": rep, "hash_eq": he, "diff": dv, "family": fam}
         if sp.get("knobs"):
             ctx.count("%s:knobs:%s" % (label, ",".join(sorted(sp["knobs"]))))
-        ctx.seen((t1l, t2l, nm, rep), nontrivial=(t1l != t2l))
+        if sp.get("share"):
+            ctx.count("%s:shared_containers:mode%d(%s)" % (label, sp["share"], "inside each value" if sp["share"] == 1 else "also across t1/t2"))
+        ctx.seen((t1l, t2l, nm, rep, sp.get("share", 0)), nontrivial=(t1l != t2l))
         ctx.count("%s:family:%s" % (label, fam))
         ctx.count("%s:options:%s" % (label, nm))
         ctx.count("%s:rep" % label if rep else "%s:norep" % label)
@@ -1173,6 +1565,10 @@ def evaluate(ctx, pool, jobs, label):
         elif ok is False:
             r = ctx.fail(case, describe(he, dv) + " [options: %s, report_repetition=%s]" % (nm, rep))
             ctx.count("%s:oracle_fail_%s" % (label, r))
+            att = attribution(case)
+            ctx.count("attributed:%s:hash_%s/diff_%s" % (att[0] if (att and r == "known") else r, pattern(case)[0], pattern(case)[1]))
+            if r == "known" and len(att) > 1:
+                ctx.count("attributed:co-occurring:%s" % "+".join(att))
         if in_model:
             exp_dv = "raised" if dv.startswith("EXC:") else dv
             cases.append((expr, [he, exp_dv], dict(case, guard_expr=gexpr, agree=ok)))
@@ -1184,14 +1580,21 @@ def evaluate(ctx, pool, jobs, label):
     return cases
 
 
+GPARTS = ["lift_guard", "lift_guardb", "lg_tag(K1)", "lg_ascii", "lg_k9(exact)", "k9_of_rounds_1_2", "lg_cohk", "lg_keyb", "goodv_t1", "goodv_t2",
+          "wf_t1", "wf_t2", "alias_free_t1", "alias_free_t2", "shared_F", "threshold_le_1", "lift_guard_of_rounds_1_2"]
+
+
 def guard_replay(ctx, cases):
-    """C12_hash_iff_diff_partial replayed on the implementation: the boolean guard of the theorem
-    is evaluated in Coq on every model case; inside the guard the two real engines must agree."""
+    """The theorems replayed on the implementation: EVERY hypothesis of C12_hash_iff_diff_partial /
+    C12_hash_iff_diff_simple_guard_partial / C12_deephash_iff_diff_partial is evaluated in Coq (HashDiffShow.gparts)
+    on every model case; inside the hypotheses the two real engines must agree.  The components are counted, so the
+    evidence shows which hypothesis puts how many generated cases outside the theorem."""
     if not cases:
         return
-    inside = inside_b = 0
+    inside = inside_b = inside_old = inside_dh = 0
     from concurrent.futures import ThreadPoolExecutor
     chunks = [cases[i:i + 120] for i in range(0, len(cases), 120)]
+    n = len(GPARTS)
 
     def one(arg):
         i, chunk = arg
@@ -1203,27 +1606,51 @@ def guard_replay(ctx, cases):
         if txt is None:
             return
         flags = txt.strip()
-        if len(flags) != 2 * len(chunk):
-            ctx.break_("correspondence", {"name": "c12_guards", "error": "expected %d guard values, got %d" % (2 * len(chunk), len(flags))})
+        if len(flags) != n * len(chunk):
+            ctx.break_("correspondence", {"name": "c12_guards", "error": "expected %d guard values, got %d" % (n * len(chunk), len(flags))})
             return
         for j, (_e, _x, t) in enumerate(chunk):
-            g, gb = flags[2 * j] == "T", flags[2 * j + 1] == "T"
+            fl = dict(zip(GPARTS, (ch == "T" for ch in flags[n * j:n * (j + 1)])))
+            g, gb = fl["lift_guard"], fl["lift_guardb"]
             case = {k: v for k, v in t.items() if k not in ("guard_expr", "agree")}
+            # the components ARE the guard (HashDiffProofsParts.lift_guard_parts): cross-check the evaluation
+            conj = all(fl[k] for k in ("lg_tag(K1)", "lg_ascii", "lg_k9(exact)", "lg_cohk", "goodv_t1", "goodv_t2"))
+            if conj != g:
+                ctx.break_("correspondence", dict(case, name="lift_guard_parts", what="the guard is not the conjunction of its components"))
             if gb and not g:
                 ctx.break_("correspondence", dict(case, name="lift_guardb_sound", what="the per-key guard holds but the relational guard does not"))
+            if fl["lift_guard_of_rounds_1_2"] and not g:
+                ctx.break_("correspondence", dict(case, name="lift_guard_weaker", what="the guard of rounds 1-2 holds but the present guard does not"))
+            if not (fl["shared_F"] and fl["threshold_le_1"]):
+                ctx.break_("correspondence", dict(case, name="hypotheses", what="a generated case violates shared F / threshold <= 1"))
+            for k in GPARTS[2:]:
+                if not fl[k]:
+                    ctx.count("hypothesis_false:%s" % k)
+            failing = [k for k in ("lg_tag(K1)", "lg_ascii", "lg_k9(exact)", "lg_cohk", "goodv_t1", "goodv_t2") if not fl[k]]
+            if len(failing) == 1:
+                ctx.count("theorem_guard:outside_only_because_of:%s" % failing[0])
             if gb:
                 inside_b += 1
                 ctx.count("theorem_guard:inside_per_key_guard")
+            if fl["lift_guard_of_rounds_1_2"]:
+                inside_old += 1
             if g:
                 inside += 1
                 ctx.count("theorem_guard:inside:%s" % ("hash_eq" if t["hash_eq"] is True else "hash_ne"))
+                if not fl["lift_guard_of_rounds_1_2"]:
+                    ctx.count("theorem_guard:inside_thanks_to_exact_k9")
+                if fl["wf_t1"] and fl["wf_t2"] and fl["alias_free_t1"] and fl["alias_free_t2"]:
+                    inside_dh += 1
+                    ctx.count("theorem_guard:inside_deephash_form(wf,alias_free)")
                 if t["agree"] is not True:
                     ctx.break_("correspondence", dict(case, name="C12_hash_iff_diff_partial", what="inside lift_guard the implementation's two engines disagree"))
             else:
                 ctx.count("theorem_guard:outside")
     ctx.note("theorem_replayed_on_implementation",
-             "C12_hash_iff_diff_partial: %d of %d model cases are inside lift_guard (%d of them inside the per-key guard lift_guardb of "
-             "C12_hash_iff_diff_simple_guard_partial); on all of them DeepHash equality == DeepDiff emptiness" % (inside, len(cases), inside_b))
+             "C12_hash_iff_diff_partial: %d of %d model cases satisfy ALL its hypotheses (lift_guard, shared F, threshold <= 1; %d of them also the "
+             "per-key guard lift_guardb of C12_hash_iff_diff_simple_guard_partial, %d also wf / alias_free of C12_deephash_iff_diff_partial; the "
+             "guard of rounds 1-2 admitted %d); on all of them DeepHash equality == DeepDiff emptiness on the real engines"
+             % (inside, len(cases), inside_b, inside_dh, inside_old))
 
 
 # --------------------------------------------------------------------------
@@ -1339,9 +1766,10 @@ def run(ctx):
             t1, t2, log = gen_case_values(rng, fam, sp, rich=False)
             if i % 3 == 2:
                 sp = dict(sp, knobs=rng.choice(KNOBS))
+            t1, t2, spc = with_sharing(rng, t1, t2, sp)
             for a in log:
                 ctx.count("altered:%s@%s" % a if a[0] != "edit" else "edit:%s" % (str(a[1]).split(":")[0],))
-            jobs.append((fam, t1, t2, sp, rng.random() < 0.5, True))
+            jobs.append((fam, t1, t2, spc, rng.random() < 0.5, True))
     rich = []
     for t1, t2, sp in FIXED_RICH:
         for rep in (False, True):
@@ -1350,7 +1778,8 @@ def run(ctx):
         for i in range(n_rich):
             fam = ["alt", "near", "rand", "alt"][i % 4]
             t1, t2, _log = gen_case_values(rng, fam, sp, rich=True)
-            rich.append((fam, t1, t2, sp, rng.random() < 0.5, False))
+            t1, t2, spc = with_sharing(rng, t1, t2, sp)
+            rich.append((fam, t1, t2, spc, rng.random() < 0.5, False))
     mods = [mk(), mk(case=True), mk(strty=True), mk(numty=True), mk(sig=0), mk(sig=2), mk(case=True, numty=True), mk(trunc="minute"), mk(sig=1, note=True)]
     for i in range(600 if ctx.thorough else 110):
         sp = dict(mods[i % len(mods)], enum=True)
@@ -1373,9 +1802,25 @@ def run(ctx):
         rich.append(("keyflip", t1, t2, sp, rng.random() < 0.5, False))
     for fam, t1, t2, sp, rep, _w in jobs[:3] + jobs[2 * len(FIXED):2 * len(FIXED) + 3]:
         ctx.sample({"family": fam, "t1": lit(t1), "t2": lit(t2), "options": name_of(sp), "report_repetition": rep})
+    # the extended-universe model: list-free pairs under ALL shared options
+    ypairs = []
+    for t1, t2, sp in FIXED_RICH + FIXED:
+        if y_listfree(t1) and y_listfree(t2) and in_yuniverse(t1) and in_yuniverse(t2) and not (sp["enum"] and enum_meets_container(t1, t2)):
+            for rep in (False, True):
+                ypairs.append(("fixed", t1, t2, sp, rep))
+    for sp in y_specs(rng):
+        for i in range(40 if ctx.thorough else 9):
+            t1, t2 = gen_y_pair(rng, sp)
+            if in_yuniverse(t1) and in_yuniverse(t2) and not (sp["enum"] and enum_meets_container(t1, t2)):
+                ypairs.append(("ygen", t1, t2, sp, rng.random() < 0.5))
+    for fam, t1, t2, sp, rep, _w in rich:
+        if fam != "fixed" and not sp.get("share") and y_listfree(t1) and y_listfree(t2) and in_yuniverse(t1) and in_yuniverse(t2) \
+                and not (sp["enum"] and enum_meets_container(t1, t2)):
+            ypairs.append(("rich:" + fam, t1, t2, sp, rep))
     with mp.get_context("fork").Pool(core.NCPU) as pool:
         cases = evaluate(ctx, pool, jobs, "model")
         evaluate(ctx, pool, rich, "rich")
+        yhyp = y_stream(ctx, pool, ypairs)
     guard_replay(ctx, cases)
     cases = [(e, x, {k: v for k, v in t.items() if k != "guard_expr"}) for e, x, t in cases]
     ctx.coq_cases("c12_pairs", HEADER, cases, shard=60, label="both_engines_on_pairs")
@@ -1393,7 +1838,7 @@ def replay(ctx, data):
     t1, t2, sp, rep = _inputs(case)
     kw = kwargs_of(sp)
     he = hash_verdict(t1, t2, kw, rep)
-    dv = diff_verdict(t1, t2, kw, rep)[0]
+    dv = diff_verdict(t1, t2, kw, rep, **sp.get("knobs", {}))[0]
     ctx.evaluations += 1
     print("replay: t1=%s t2=%s options=%s report_repetition=%s -> hash_eq=%r diff=%s" % (case["t1"], case["t2"], name_of(sp), rep, he, dv))
     if agree(he, dv) is False:
